@@ -153,7 +153,10 @@ def get_attr(eng, o, attr, node):
             return model(eng.ctx, o)
         ver = eng.ghost.get("heapver", 0) if not eng.contract.attr_is_stable(attr) else 0
         f = V.uf("attr_" + attr, V.vsort(), z3.IntSort(), V.vsort())
-        return SOpq(f(o.t, z3.IntVal(ver)))
+        val = SOpq(f(o.t, z3.IntVal(ver)))
+        for (wo, wv) in eng.attr_log.get(attr, []):
+            val = V.ite(V.eq(o, wo), _box(eng, wv), val)
+        return val
     if o is None:
         raise RaiseExc("AttributeError", (), node, implicit=True)
     if isinstance(o, (int, SInt, SBool, bytes, bytearray, str, SSeq, tuple, float)):
